@@ -423,6 +423,7 @@ def main(tier="quick", seed=0, only=None):
                    "rotations about each coordinate axis with symbolic angle (rational parametrisation, every angle except pi); thorough: general "
                    "rotation from a symbolic quaternion for l <= 1",
         "modules": "overlap, kinetic, dipole and second (rank-2 tensor) moments about a co-moving origin, momentum, angular momentum (incl. the d x p shift law), "
+                   "moments about a shifted origin with the basis held fixed (binomial law, symbolic origin and shift, orders up to (2,1,0); both calls in one interpreter), "
                    "point charge, ERI (l <= 1), function values and gradients; Cartesian and mixed Cartesian/spherical 2-shell bases, l <= 2 (3 thorough)",
         "outside": "general 3-parameter rotations for l >= 2; density / stress-tensor level invariants (follow from these by linear algebra, not checked here)",
     }
